@@ -50,7 +50,11 @@ VARIANTS = {
     "prod": ("gcc", "g++", ["-O2", "-g", "-DNDEBUG"], []),
     "omp": ("gcc", "g++", ["-O2", "-g", "-DNDEBUG", "-fopenmp"], ["-fopenmp"]),
     "ompasan": ("clang", "clang++", ["-O1", "-g", "-fopenmp"] + SAN, ["-fopenmp"] + SAN),
+    # prod with the AVX-512 kernels compiled as -march=native users on VBMI hardware get them (CMake's default flags leave
+    # the __AVX512VBMI__ code paths out); see VARIANT_PER_FILE
+    "prodvbmi": ("gcc", "g++", ["-O2", "-g", "-DNDEBUG"], []),
 }
+VARIANT_PER_FILE = {"prodvbmi": {"src/simd/x86/avx512_ops.c": ["-mavx512vbmi", "-mavx512dq", "-mavx512cd"]}}
 
 
 def sha(*parts):
@@ -125,7 +129,8 @@ def prune(parent, prefix, keep):
 def build_lib(variant):
     """Returns path of libcarquet.a for the variant, built from REPO's current bytes."""
     cc, cxx, cflags, _ = VARIANTS[variant]
-    key = sha(variant, repo_hash(), " ".join(cflags + DEFS), json.dumps(PER_FILE, sort_keys=True))
+    extra_pf = VARIANT_PER_FILE.get(variant, {})
+    key = sha(variant, repo_hash(), " ".join(cflags + DEFS), json.dumps(PER_FILE, sort_keys=True), json.dumps(extra_pf, sort_keys=True))
     libdir = os.path.join(BUILD, "lib")
     out = os.path.join(libdir, "%s-%s" % (variant, key))
     ar = os.path.join(out, "libcarquet.a")
@@ -140,7 +145,7 @@ def build_lib(variant):
             obj = os.path.join(tmp, src.replace("/", "_")[:-2] + ".o")
             cmd = [cc, "-std=gnu11", "-c", os.path.join(REPO, src), "-o", obj,
                    "-I" + os.path.join(REPO, "include"), "-I" + os.path.join(REPO, "src"),
-                   "-w"] + cflags + DEFS + PER_FILE.get(src, [])
+                   "-w"] + cflags + DEFS + PER_FILE.get(src, []) + extra_pf.get(src, [])
             run(cmd)
             return obj
         with ThreadPoolExecutor(16) as ex:
